@@ -12,6 +12,7 @@ transcription of /repo's `CheckIncoming` and the rule of the property). The driv
 import DhtVerif.Lemmas.B44
 import DhtVerif.Lemmas.C13
 import DhtVerif.Lemmas.C13Conc
+import DhtVerif.Props.SourceTrees
 namespace Dht
 open B44
 
@@ -354,5 +355,11 @@ example :
     (Wrapper.put P 1 s1 (C13.wItem 2 2)).2 = some 302 ∧ (Wrapper.put P 1 s1 (C13.wItem 3 1)).2 = none ∧
     (Wrapper.put P 1 s1 ⟨[9], some [7], [], [], 3, 5⟩).2 = none ∧
     (Wrapper.put P 1 s1 ⟨[9], some [7], [], [], 4, 5⟩).2 = some 301 := by decide
+
+/-- T1 by translation: the decision expression extracted from `CheckIncoming` in bep44/item.go,
+interpreted with the atom table of Props/SourceTrees, IS the model's `checkIncoming`, for all items. -/
+theorem C13.checkIncoming_is_the_source (stored incoming : B44.Item) :
+    DExp.evalWith (ciCond stored incoming) ciRet Gen.treeCheckIncoming = some (B44.checkIncoming stored incoming) :=
+  SourceTrees.checkIncoming stored incoming
 
 end Dht
